@@ -360,6 +360,9 @@ func checkC04(p *Program, r *Report) {
 	for _, f := range iters {
 		checkExhaust(p, r, f)
 	}
+	// every value encoder, variable width included (shared with C01): the layout of the value array
+	// the scan reads value bytes from is decided per element
+	checkVLenWidth(p, r, "C04.vlen-width")
 }
 
 // checkStop: in ScanFrom, from the branch taken when the callback returns
